@@ -232,6 +232,12 @@ class EvolvableNetwork(EvolvableModule, metaclass=NetworkMeta):
         output_activation = encoder_config.get("output_activation")
         if output_activation is None:
             activation = encoder_config.get("activation")
+            if activation is None and encoder_cls is None:
+                # NOTE: Without an explicit activation the encoder falls back on its own default.
+                # Resolve that default here, otherwise a network rebuilt from the encoder's full
+                # configuration (e.g. a clone) would get a different output activation
+                activation = self._default_encoder_activation()
+
             encoder_config["output_activation"] = activation
 
         if encoder_cls is not None:
@@ -260,6 +266,24 @@ class EvolvableNetwork(EvolvableModule, metaclass=NetworkMeta):
         # NOTE: We disable layer mutations for the encoder since this usually adds a lot
         # of variance to the optimization process
         self.encoder.disable_mutations(MutationType.LAYER)
+
+    def _default_encoder_activation(self) -> Optional[str]:
+        """Activation that the default encoder for the observation space uses when
+        none is specified (``None`` for encoders without an activation argument)."""
+        if isinstance(self.observation_space, (spaces.Dict, spaces.Tuple)):
+            return None
+        elif is_image_space(self.observation_space):
+            encoder_cls = EvolvableCNN
+        elif (
+            isinstance(self.observation_space, spaces.Box)
+            and len(self.observation_space.shape) == 2
+            and self.recurrent
+        ) or self.simba:
+            return None
+        else:
+            encoder_cls = EvolvableMLP
+
+        return inspect.signature(encoder_cls.__init__).parameters["activation"].default
 
     @property
     def encoder_config(self) -> Dict[str, Any]:
